@@ -271,6 +271,30 @@ func runC02(c *hc.Ctx) error {
 				}
 			}
 		}
+		if i%25 == 12 { // a steep sawtooth inside ONE pixel column of tile matrix 0, a vertex in every pixel row of that column:
+			// on the shallow matrix every edge is routed through the whole column (the routed ring is several times as long as
+			// the input ring), on the deepest matrix nothing collapses: requested together, the deep result must not notice
+			for _, gg := range grids {
+				if gg.DeepestID != 4 || gg.Level(0) == gg.Level(4) || gg.Span(gg.Level(0)) != 16*gg.Span(gg.Level(4)) {
+					continue
+				}
+				P0 := gg.Span(gg.Level(0))
+				n0 := int64(1) << gg.Level(0)
+				if n0 < 9 {
+					continue
+				}
+				ox, oy := gg.Ext[0]+c.Rng.Int63n(n0-1)*P0, gg.Ext[1]+c.Rng.Int63n(n0-8)*P0
+				u := P0 / 128
+				var saw []Pt
+				for _, q := range [][2]int64{{5, 3}, {123, 3}, {115, 963}, {101, 13}, {91, 963}, {77, 13}, {67, 963}, {53, 13}, {43, 963}, {29, 13}, {19, 963}, {15, 829}, {14, 701}, {12, 573}, {10, 445}, {9, 317}, {7, 189}} {
+					saw = append(saw, Pt{ox + q[0]*u, oy + q[1]*u})
+				}
+				if gg.inGrid([][]Pt{saw}) && validPolygon([][]Pt{saw}) {
+					g, poly, kind, id = gg, [][]Pt{saw}, "sawtooth in one pixel column of tile matrix 0, requested with the deepest tile matrix", 0
+				}
+				break
+			}
+		}
 		ids := []int{id}
 		if id != g.DeepestID {
 			ids = append(ids, g.DeepestID)
